@@ -85,6 +85,8 @@ def cases(rng, tier):
                         yield Case(program=render(call(c, call(c, lit(n)))), tag='int-roundtrip', monitor='c16_expect', data=O(str(n)))
     # strings
     samples = ["", "a", "é", "가", "😀", "a가😀é𝄞", "\u0000", "￿", "\U0010ffff", "퟿", "한글 text"]
+    # byte-order-mark look-alikes as ordinary payload (first, repeated, in the middle)
+    samples += ["\ufeffabc", "\ufffeab", "\ufeff", "\ufffe", "a\ufeff", "\ufeff\ufeff", "\ufeff😀", "\ufffe\ufeff가"]
     n = 40 if tier == 'quick' else 3000
     for _ in range(n):
         samples.append("".join(chr(rng.choice([rng.randrange(0x20, 0x7F), rng.randrange(0x80, 0x800), rng.randrange(0x800, 0xD800),
@@ -123,7 +125,7 @@ SPEC = {
     'rule': 'integers: widths {1,2,3,4,8,16} (quick) / 1…16 × {unspecified, big, little} × {signed, unsigned} × {range '
             'ends, ends ± 1, 0, ±1, random in and just outside range}: encoding vs an independent two\'s-complement oracle, '
             'decoding back, round trip, rejection outside the range; strings: fixed samples (empty, NUL, U+FFFF, U+10FFFF, '
-            'surrogate neighbours) + random scalar-value strings (+ a stride over all scalar values in thorough) × UTF-8 / '
+            'surrogate neighbours, strings beginning with / containing U+FEFF and U+FFFE) + random scalar-value strings (+ a stride over all scalar values in thorough) × UTF-8 / '
             '16 / 32 × orders vs independent encoders, decoding back; invalid sequences rejected; BOM selection; unsupported '
             'width / scheme. Non-trivial: all',
     'trusted': ["the harness's own encoders (uh/props/c16.py) as the independent definition of two's complement / UTF"],
